@@ -229,11 +229,14 @@ def compare_model(ctx, r, hi, stats):
     """correspondence model vs implementation for one history.  Returns 'ok' | 'memerr' | 'diff'."""
     toks, err = r['impl'][hi]
     ml = r['model'][hi]
+    if r['hists'][hi].get('eager'):
+        # callback-exit events (kind 5) exist on the implementation side only
+        toks = [t for e in r['events'][hi] if e[0] != 5 for t in e]
     if err is None and toks == ml:
         stats['agree'] += 1
         return 'ok'
     mev = tc.split_events(ml)
-    iev = r['events'][hi]
+    iev = [e for e in r['events'][hi] if e[0] != 5]
     if err is not None and mev and mev[-1][0] == 4 and mev[:-1] == iev[:len(mev) - 1]:
         stats['agree_on_error'] += 1
         return 'memerr'
@@ -707,11 +710,8 @@ def campaign(ctx, pid):
             stats['histories'] += 1
             stats['calls'] += len(h['calls'])
             if h.get('eager'):
-                # eager (double-buffering) platform: not a platform of the Coq model; implementation-side oracles only
                 stats['eager_platform_histories'] += 1
-                verdict = 'eager'
-            else:
-                verdict = compare_model(ctx, r, hi, stats)
+            verdict = compare_model(ctx, r, hi, stats)
             toks, err = r['impl'][hi]
             if verdict == 'memerr-silent':
                 continue
